@@ -51,7 +51,8 @@ def _ops():
     )
     lines = gen.with_ack(gen.weighted((6, missing_kinds), (2, present), (2, never))).map(lambda l: ["rx", l])
     pause = st.sampled_from((1, 59, 61, 600, 3600, 86400)).map(lambda t: ["sleep", t])
-    return st.lists(gen.weighted((10, lines), (1, pause)), min_size=8, max_size=30)
+    events = st.sampled_from((["save"], ["reload"], ["session"]))
+    return st.lists(gen.weighted((20, lines), (2, pause), (1, events)), min_size=8, max_size=30)
 
 
 _registry = st.sampled_from(
@@ -69,7 +70,7 @@ BETWEEN = (
     ["rx", "5;255;0;0;17;2.1\n"], ["rx", "5;255;0;1;18;1.4\n"], ["rx", "5;255;0;0;0;\n"], ["rx", "6;255;0;0;17;2.1\n"], ["rx", "0;255;0;0;18;2.1\n"], ["rx", "0;255;0;0;18;2.2.0\n"],
     ["rx", "0;255;3;0;2;2.0.1\n"], ["rx", "0;255;3;1;2;2.2\n"], ["rx", "5;1;0;0;6;child\n"], ["rx", "5;255;3;0;6;0\n"], ["rx", "5;255;3;0;1;\n"], ["rx", "5;255;3;0;18;\n"],
     ["rx", "6;1;1;0;0;1\n"], ["rx", "255;255;3;0;3;\n"], ["rx", "5;7;3;0;3;\n"], ["rx", "0;255;3;0;14;ready\n"], ["rx", "0;255;3;0;9;log\n"], ["rx", "junk\n"],
-    ["rx", "5;255;3;0;19;\n"], ["rx", "5;255;3;0;21;\n"], ["session"], ["sleep", 61], ["sleep", 86400], ["install", 5], ["install", 6],
+    ["rx", "5;255;3;0;19;\n"], ["rx", "5;255;3;0;21;\n"], ["session"], ["sleep", 61], ["sleep", 86400], ["install", 5], ["install", 6], ["save"], ["reload"],
 )
 
 
